@@ -597,4 +597,12 @@ def rule_responder_setup(ctx):
 
 
 
-RULES = [('C01.a', rule_a), ('C01.b', rule_b), ('C01.c', rule_c), ('C01.d', rule_e), ('C01.e', rule_f), ('C01.f', rule_g), ('C06.e', rule_h), ('C06.a', rule_i), ('C01.g', rule_j), ('C01.h', rule_k), ('C01.i+C02.e+C17.c+C05.g+C01.j', rule_l), ('C05.a+C05.f+C03.b+C03.c+C03.f', rule_d), ('C01.m', rule_balancer), ('C01.n', rule_pumps), ('C11.c', rule_dead_responders_silenced), ('C01.o', rule_default_subscriber), ('C01.p', rule_responder_setup)]
+
+def rule_cache_entries(ctx):
+    """(shared C03.j)  a payload being received in fragments is delivered whole: partial frames leave the reassembly cache
+    only on their last fragment or with their stream (rules/c03.py)."""
+    from .c03 import rule_cache_entries_leave_when_done as r
+    r(ctx)
+
+
+RULES = [('C01.a', rule_a), ('C01.b', rule_b), ('C01.c', rule_c), ('C01.d', rule_e), ('C01.e', rule_f), ('C01.f', rule_g), ('C06.e', rule_h), ('C06.a', rule_i), ('C01.g', rule_j), ('C01.h', rule_k), ('C01.i+C02.e+C17.c+C05.g+C01.j', rule_l), ('C05.a+C05.f+C03.b+C03.c+C03.f', rule_d), ('C01.m', rule_balancer), ('C01.n', rule_pumps), ('C11.c', rule_dead_responders_silenced), ('C01.o', rule_default_subscriber), ('C01.p', rule_responder_setup), ('C03.j', rule_cache_entries)]
